@@ -44,11 +44,16 @@ inductive VOp where
 /-- `std::vector::resize(n)`: truncate or pad with zeros -/
 def vresize (v : Vec) (n : Nat) : Vec := v.take n ++ List.replicate (n - v.length) 0
 
+/-- division in the scaled domain (fix a1cdfe7): `ldexp(xᵢ, -e) / scaled_norm` with
+    `scaled_norm = norm · 2^-e`; value-neutral over the rationals (theorem `vdivScaled_eq`) -/
+def vdivScaled (e : Int) (v : Vec) (nrm : Rat) : Vec :=
+  vtab v.length (fun i => (v.getD i 0 * (2 : Rat) ^ (-e)) / (nrm * (2 : Rat) ^ (-e)))
+
 /-- `v / Norm()`; the norm must be a non-zero rational (else outside the model: `undef`) -/
 def vnormalized (v : Vec) : Except Err Vec :=
   match ratSqrt? (vnormSq v) with
   | none => .error .undef
-  | some nrm => if nrm = 0 then .error .undef else .ok (vsdiv v nrm)
+  | some nrm => if nrm = 0 then .error .undef else .ok (vdivScaled 0 v nrm)
 
 def vStep (v : Vec) : VOp → Except Err (Vec × List Rat)
   | .norm => .ok (v, [vnormSq v])                          -- reported as the square
